@@ -48,6 +48,9 @@ Checks(r) ==
        [] c.op = "sct"   -> V("C12.SCTConfirmed", r.id, ~SCTSound(r.ok, r.sct, r.ret))
        [] c.op = "cp"    -> V("C12.CheckpointSigned", r.id, ~CPSound(r.ok, r.cp))
                             \cup V("C12.CheckpointIsTheSigned", r.id, r.ok /\ ~r.ret_cp)
+                            \* the RFC 6962 signature covers size and root only: a returned checkpoint
+                            \* must not carry lines (extensions) the configured key never signed
+                            \cup V("C12.CheckpointNoUnsignedContent", r.id, r.ok /\ r.cp.ext)
        [] OTHER -> {<<"unknown call", r.id>>})
     \* the binding: an untampered honest log must answer, and the case is the plan's
     \cup V("HARNESS.PristineIncomplete", r.id, c.obj = "none" /\ c.log = "A" /\ ~CompleteR(r))
